@@ -560,6 +560,30 @@ def inner_vec():
     return Static("innerV", [("a", N, lambda a, r: (a[0][0] + 2.0 * a[0][1], _f(1.0)))], lambda a, r: r[0] + a[0][0], (jnp.asarray([0.4, -0.3], jnp.float32),))
 
 
+def k_nested():
+    """kernel (carry, x) -> (carry', out) whose SECOND address is a nested static call: a ~ normal(carry, 1) @ "a";
+    b = inner1(a + x) @ "b"   (key derivations of nested calls inside a scan)"""
+    N = Dist("normal")
+    return Static("kernN", [("a", N, lambda a, r: (a[0], _f(1.0))), ("b", inner1(), lambda a, r: (r[0] + a[1],))],
+                  lambda a, r: (r[1], r[0] * a[1]), (_f(0.2), _f(0.7)))
+
+
+def static_vmap3_then_site():
+    """xs = inner1.vmap()(v3) @ "xs"; y ~ normal(sum(xs), 1) @ "y"   (a 3-element vmap followed by a sibling address)"""
+    N = Dist("normal")
+    return Static("sv3", [("xs", Vmap(inner1(), 3), lambda a, r: (a[0],)), ("y", N, lambda a, r: (jnp.sum(r[0]), _f(1.0)))],
+                  lambda a, r: r[1], (jnp.asarray([0.4, 0.65, 0.9], jnp.float32),))
+
+
+def static_vmapdist3_then_site():
+    """xs = normal.vmap(in_axes=(0, None))(m3, 1.0) @ "xs"; y ~ normal(sum(xs), 1) @ "y"
+    (a vmapped BARE distribution with 3 elements followed by a bare distribution: their keys are derived side by side)"""
+    N = Dist("normal")
+    VD = Vmap(Dist("normal"), 3, in_axes=(0, None), args=(jnp.asarray([0.4, 0.65, 0.9], jnp.float32), _f(1.0)))
+    return Static("svd3", [("xs", VD, lambda a, r: (a[0], _f(1.0))), ("y", N, lambda a, r: (jnp.sum(r[0]), _f(1.0)))],
+                  lambda a, r: r[1], (jnp.asarray([0.4, 0.65, 0.9], jnp.float32),))
+
+
 def catalogue(tier="quick"):
     """Name -> thunk; thunks build the Prog lazily (tracing happens later)."""
     N = lambda: Dist("normal")  # noqa: E731
@@ -588,6 +612,9 @@ def catalogue(tier="quick"):
         "or_else(inner1,inner2s)": lambda: OrElse(inner1(), inner2s(), flag=False),
         "mix(inner1,inner2)": lambda: Mix(inner1(), inner2()),
         "composed": composed,
+        "scan(kernN)": lambda: Scan(k_nested(), 3),
+        "static(vmap3;y)": static_vmap3_then_site,
+        "static(vmapdist3;y)": static_vmapdist3_then_site,
         "static(vmap)": static_vmap,
         "static(scan)": static_scan,
         "static(switch)": static_switch,
